@@ -67,6 +67,7 @@ type appSpec struct {
 	ConnsR      int               `json:"receiver_connections"`
 	RLat        []int             `json:"receiver_address_latency_ms"` // one per receiver address (one-way, both directions)
 	SLat        []int             `json:"sender_address_latency_ms"`
+	RLatBack    []int             `json:"receiver_address_return_latency_ms,omitempty"` // 0: same as towards it
 	RDead       []bool            `json:"receiver_address_unreachable,omitempty"` // addresses the receiver offers but the sender cannot reach (another network)
 	// Sel (part C01APP): what is named on the host's command line, relative to the directory
 	// the files of this run live in - directories and single files, with equal base names
@@ -129,29 +130,29 @@ func (h appHarness) Gen(r *verifsim.SplitMix, tier string, idx int) any {
 		}
 	case "C09APP":
 		sp.Scenario = "multipath"
-		// several addresses per host, each path with its own symmetric latency; latencies of
-		// one host differ by at least 4 ms, so that both ends see the handshakes complete in
-		// the same order (equal or asymmetric round trips are the listed split-connection
-		// finding of C09 and are left to the T2 harness, which classifies them)
-		distinct := func(n int) []int {
-			pool := []int{1, 5, 9, 20, 40, 60, 80}
+		// several addresses per host, each path with its own latency: equal ones (two
+		// addresses of one machine), different ones, and paths that are faster one way than
+		// the other - so that the two ends see the handshakes complete in different orders
+		draw := func(n int) []int {
+			pool := []int{1, 5, 5, 9, 20, 20, 40, 60, 80}
 			var out []int
 			for len(out) < n {
-				v := pool[r.Intn(len(pool))]
-				dup := false
-				for _, x := range out {
-					dup = dup || x == v
-				}
-				if !dup {
-					out = append(out, v)
-				}
+				out = append(out, pool[r.Intn(len(pool))])
 			}
 			return out
 		}
-		sp.RLat = distinct(2 + r.Intn(2))
-		sp.SLat = distinct(1 + r.Intn(2))
-		if os.Getenv("VERIF_APP_TIES") != "" { // development: two addresses of the receiver equally far away
+		sp.RLat = draw(2 + r.Intn(2))
+		sp.SLat = draw(1 + r.Intn(2))
+		if r.Chance(1, 3) {
 			sp.RLat[1] = sp.RLat[0]
+		}
+		if r.Chance(1, 3) {
+			sp.RLatBack = make([]int, len(sp.RLat))
+			for i := range sp.RLatBack {
+				if r.Chance(1, 2) {
+					sp.RLatBack[i] = []int{1, 5, 9, 20, 40}[r.Intn(5)]
+				}
+			}
 		}
 		// some of the addresses a host offers are not reachable from the other side (a LAN
 		// address offered to a peer elsewhere); at least one is
@@ -465,6 +466,9 @@ func (h appHarness) Run(spec any) (res verifsim.RunResult) {
 					target, l = mSock, time.Duration(sp.MLat)*time.Millisecond
 				}
 				pth := &verifsim.UDPPath{Alias: &net.UDPAddr{IP: ip, Port: tport}, Up: l, Down: l}
+				if ho.name == "S" && ht.name == "R" && ipIdx < len(sp.RLatBack) && sp.RLatBack[ipIdx] > 0 {
+					pth.Down = time.Duration(sp.RLatBack[ipIdx]) * time.Millisecond
+				}
 				if ho.name == "S" && ht.name == "R" && ipIdx < len(sp.RDead) && sp.RDead[ipIdx] {
 					pth.Blackhole = true
 				}
